@@ -37,14 +37,18 @@ def run(tier, seed):
     # operation histories
     N = 3 if tier == 'quick' else 4
     users, sps = ['u1', 'u2'], ['sp1', 'sp2']
+    special = [u'alice smith@example.org', u'50%,a=b', u'bj\xf6rn']
     ops = [('persistent', u, s) for u in users for s in sps] + [('transient', u, s) for u in users for s in sps] + \
-          [('remove_local', u) for u in users] + [('remove_remote_last',)]
+          [('remove_local', u) for u in users] + [('remove_remote_last',)] + \
+          [('store_special', 'u1', special[0]), ('store_special', 'u2', special[1]), ('store_special', 'u1', special[2])]
+    withdrawn = {}
     count = 0
     for seq in itertools.product(ops, repeat=N):
         count += 1
         if tier == 'quick' and count % 11 != seed % 11:
             continue
         db = ident.IdentDB({})
+        withdrawn = {}
         issued = {}     # text -> (user, NameID)
         last = None
         for op in seq:
@@ -66,9 +70,18 @@ def run(tier, seed):
                         violations.append({'name': 'bounded[ident-history]', 'what': 'transient id not fresh after %r' % (seq,)})
                     issued[nid.text] = (op[1], nid)
                     last = nid
+                elif op[0] == 'store_special':
+                    # an identifier whose text needs escaping in the stored code (e-mail style, separators, non-ASCII)
+                    if op[2] in issued:
+                        continue
+                    nid = saml.NameID(text=op[2], format='urn:oasis:names:tc:SAML:1.1:nameid-format:emailAddress', sp_name_qualifier='sp1')
+                    db.store(op[1], nid)
+                    issued[nid.text] = (op[1], nid)
+                    last = nid
                 elif op[0] == 'remove_local':
                     db.remove_local(op[1])
                     for t in [t for t, (u, _) in issued.items() if u == op[1]]:
+                        withdrawn[t] = issued[t][1]
                         del issued[t]
                     if last is not None and last.text not in issued:
                         last = None
@@ -79,6 +92,9 @@ def run(tier, seed):
             except Exception as e:
                 violations.append({'name': 'bounded[ident-history]', 'what': '%r raised %r in %r' % (op, e, seq)})
                 break
+            for t, nid in list(withdrawn.items()):
+                if t not in issued and db.find_local_id(nid) is not None:
+                    violations.append({'name': 'bounded[ident-history]', 'what': 'withdrawn identifier %r still resolves to %r after %r' % (t, db.find_local_id(nid), seq)})
             for t, (u, nid) in issued.items():
                 if db.find_local_id(nid) != u:
                     violations.append({'name': 'bounded[ident-history]', 'what': 'identifier %r resolves to %r, issued for %r, after %r' % (t, db.find_local_id(nid), u, seq)})
